@@ -84,10 +84,10 @@ def eval_defaults(default):
 
 # ---------------------------------------------------------------- zone resolution
 ZTEXTS = ['+0300', '-03:00', ' +0300', 'UTC', 'Z', ' GMT', ' UTC', ' GMT+3', ' UTC-3', ' GMT-03:30', ' GMT+03:30', ' UTC+5:45',
-          '-0330', ' -09:30', '-00:45', '+05:45', ' -0230 (NDT)', ' EST', ' EDT', ' BRST', ' BST',
+          '-0330', ' -09:30', '-00:45', '+05:45', ' -0230 (NDT)', ' EST', ' EDT', ' BRST', ' BST', ' CHAST', ' NOVST', ' +1245 (CHAST)',
           '+0000', ' -0000', ' +00:00', '', ' CET', ' XYZT', ' +0300 (MSK)', ' -0500 (EST)']
 BASES = ['2003-09-25 10:36:28', '2003-01-25 10:36:28', '2003-10-26 01:30:00', '2003-11-02 01:30:00']
-TZENVS = [None, 'Europe/London', 'America/New_York', 'EST5EDT,M4.1.0,M10.5.0', 'UTC0']
+TZENVS = [None, 'Europe/London', 'America/New_York', 'EST5EDT,M4.1.0,M10.5.0', 'UTC0', 'CHAST-12:45CHADT,M9.5.0/2:45,M4.1.0/3:45']
 
 
 class _Probe(D.tzinfo):
@@ -109,8 +109,8 @@ PROBE = _Probe('PRB')
 
 def tzinfos_forms():
     return [('absent', None),
-            ('map-tzinfo', {'EST': PROBE, 'BRST': PROBE, 'XYZT': PROBE, 'GMT': PROBE, 'MSK': PROBE}),
-            ('map-int', {'EST': -18000, 'BRST': -7200, 'XYZT': 3600}),
+            ('map-tzinfo', {'EST': PROBE, 'BRST': PROBE, 'XYZT': PROBE, 'GMT': PROBE, 'MSK': PROBE, 'NOVST': PROBE}),
+            ('map-int', {'EST': -18000, 'BRST': -7200, 'XYZT': 3600, 'NOVST': 25200}),
             ('map-str', {'EST': 'EST5EDT', 'BRST': 'BRST3'}),
             ('map-none', {'EST': None, 'BRST': None}),
             ('callable', lambda name, off: PROBE),
